@@ -23,6 +23,7 @@ class SocketServer_Multiplex(object):
     def __init__(self):
         self.sock = self.daemon = self.locationStr = None
         self.selector = selectors.DefaultSelector()
+        self.selector_is_shared = False    # True once this server is combined into another server's loop
         self.shutting_down = False
 
     def init(self, daemon, host, port, unixsocket=None):
@@ -66,9 +67,18 @@ class SocketServer_Multiplex(object):
 
     def __del__(self):
         if self.sock is not None:
-            self.selector.close()
+            self._release_selector()
             self.sock.close()
             self.sock = None
+
+    def _release_selector(self):
+        if self.selector_is_shared:
+            # the selector belongs to the loop this server was combined into: only take our own sockets out of it
+            for key in list((self.selector.get_map() or {}).values()):
+                if key.data is self:
+                    self.selector.unregister(key.fileobj)
+        else:
+            self.selector.close()
 
     def events(self, eventsockets):
         """handle events that occur on one of the sockets of this server"""
@@ -134,7 +144,7 @@ class SocketServer_Multiplex(object):
         self.sock = None
 
     def close(self):
-        self.selector.close()
+        self._release_selector()
         if self.sock:
             sockname = None
             with contextlib.suppress(OSError, socket.error):
@@ -212,3 +222,4 @@ class SocketServer_Multiplex(object):
         for sock in server.sockets:
             self.selector.register(sock, selectors.EVENT_READ, server)
         server.selector = self.selector
+        server.selector_is_shared = True
